@@ -464,7 +464,7 @@ def check(rep: Report, tier: str, seed: int) -> None:
     oracle(rep, seeded(seed * 104729 + 12), 40 if tier == "quick" else 1000)
     extra.merge()
     rep.extra["t_total_s"] = round(time.time() - t0, 1)
-    if rep.broken and not rep.failing:
+    if rep.broken and not rep.unknown_failing():
         search(rep, seed, 300 if tier == "quick" else 3000)
 
 
